@@ -19,6 +19,23 @@ Example C10_stages_present :
   written cli_steps = ["pkg_file_name"; "top_file_name"].
 Proof. vm_compute. auto. Qed.
 
+(* Part 1b: the same statement over the HAND MODEL of the pipeline (Cli.cli_model: parse, create, compile, routing
+   information, both renders, then the mode's outputs), for every mode; and the soundness of the certified comparison
+   of an OBSERVED run of the real command line (stages entered with their arguments, generated files present at
+   every entry, outputs emitted) with that model.  The harness observes the real command line in every mode and with a
+   failure injected at the entry of every stage (chk_cli_failed); this tie does not read the text of cli.py, so it
+   survives its rewrites, and decides alone when the translator above fails closed. *)
+Theorem C10_cli_model_no_output_on_failure : forall m k s,
+  nth_error (cli_model m) k = Some s -> is_call s = true -> written_if_fails_at (cli_model m) k = [].
+Proof. exact cli_model_no_output_on_failure. Qed.
+Print Assumptions C10_cli_model_no_output_on_failure.
+
+Theorem C10_observed_run_sound : forall m r, chk_cli_run m r = [] ->
+  run_steps r = cli_model m /\ outputs (run_steps r) = expected_outputs m /\ clean_at_entries r = true /\
+  forall k s, nth_error (run_steps r) k = Some s -> is_call s = true -> written_if_fails_at (run_steps r) k = [].
+Proof. exact chk_cli_run_sound. Qed.
+Print Assumptions C10_observed_run_sound.
+
 (* Part 2 (over the generator model, for EVERY input tree): what the model accepts is well formed.
    Read contrapositively these are rejection theorems for the property's defect classes -- an input
    with one of these defects makes run_yaml return Err, and Part 1 says an error leaves no file:
